@@ -21,7 +21,7 @@ import json
 import hostlib as H
 import vlib
 
-THEOREMS = ["C07_history_independent", "C07_queries", "C07_raw_api_refuted"]
+THEOREMS = ["C07_history_independent", "C07_history_independent_total", "C07_queries", "C07_raw_api_refuted"]
 TRUSTED = [
     "Coq 8.16.1 kernel (vm_compute only inside Examples and the raw-API counterexample)",
     "salsa 0.16 returns for a derived query what the query function returns on the current inputs, and the query functions "
